@@ -449,8 +449,8 @@ class PSBaseParser:
             return i + 1
 
         elif self.oct:
-            chrcode = int(self.oct, 8)
-            assert chrcode < 256, "Invalid octal %s (%d)" % (repr(self.oct), chrcode)
+            # high-order overflow is ignored (ISO 32000-1 7.3.4.2)
+            chrcode = int(self.oct, 8) & 255
             self._curtoken += bytes((chrcode,))
             self._parse1 = self._parse_string
             return i
